@@ -569,3 +569,26 @@ pub fn put_ef_length(m: &mut [u8], at: usize, length: u16) {
 pub fn set_version_mode(m: &mut [u8], vn: u8, mode: u8) {
     m[0] = (m[0] & 0xC0) | (vn << 3) | mode;
 }
+
+// ------------------------------------------------------------------ hash finalisation model (C20 only)
+/// Model of `<DefaultHasher as Hasher>::finish` for the rate-limit cache harnesses: the XOR of all
+/// words of the SipHash state (keys, compression state after the real `write` calls, buffered
+/// tail, length), reduced to 8 bits. It is a deterministic function of (keys, hashed bytes) like
+/// the real finalisation, and it is NOT injective, so slot sharing between different addresses
+/// stays reachable. Why: `index = hash % len` with an arbitrary 64-bit hash is encoded by CBMC
+/// as `hash == q * len + r` (a 64x64 multiplier the SAT solver has to invert): > 10 min per query;
+/// with an 8-bit hash the same constraint is solved in seconds.
+pub fn hasher_finish_model(h: &std::hash::DefaultHasher) -> u64 {
+    const N: usize = std::mem::size_of::<std::hash::DefaultHasher>() / 8;
+    let w: &[u64; N] = unsafe { &*(h as *const std::hash::DefaultHasher as *const [u64; N]) };
+    let mut x = 0u64;
+    let mut i = 0;
+    while i < N {
+        x ^= w[i];
+        i += 1;
+    }
+    x ^= x >> 32;
+    x ^= x >> 16;
+    x ^= x >> 8;
+    x & 0xff
+}
